@@ -252,19 +252,22 @@ PROPS["C01"] = {
                   "declarations, package scans and both loaders. Kernel-checked: the regenerated builtins tables bind every Go scalar to a "
                   "type of the same Go type, share an object only between spellings of one type, and are complete. On the full model, for "
                   "every fact graph, every call depth and both loaders (Lemmas/WalkInv.lean, WalkDesc.lean, ~2100 lines): the universe stays "
-                  "closed and canonical (C06); after the scan of a requested package every non-generic named type of its scope is "
-                  "registered under its own name with a kind; and - for programs without generic declarations - every object walkType filled "
+                  "closed and canonical (C06); after the scan of a requested package every named type of its scope is "
+                  "registered under its own name with a kind (a generic declaration under Foo[T]); and - v2's generic declarations included - every object walkType filled "
                   "from a node of the type checker's graph has that node's kind and, attribute by attribute in declaration order, "
                   "references to the objects registered under the names of the node's children: element, key, array length, struct "
                   "members with name, embedded flag and verbatim tag, parameters, results, variadic flag, receiver, underlying type of a "
                   "defined type (alias rule) and the struct/… shape of a defined type (flattening rule); objects that already have a kind "
-                  "are never touched by a later walk. With no restriction on generics (Lemmas/WalkName.lean): the object a lookup of name n "
+                  "are never touched by a later walk; a generic struct is described by the underlying node of its origin whichever use is "
+                  "seen first, its fields of parameter type refer to TypeParam objects; declarations (functions, variables, constants) are "
+                  "registered as DeclarationOf objects over the object of their Go type with the constant's value, and a scanned package's "
+                  "record carries its name and imports (Lemmas/WalkSide.lean). Lemmas/WalkName.lean: the object a lookup of name n "
                   "returns, if it was filled, was filled from a node that walkType files under n - the node go/types prints as n, the "
                   "underlying node of the defined type printed as n (flattening rule), or the signature of the method printed as n - so "
                   "what the universe says under a name is what the type checker says about the type of that name (lookup_faithful_v1/v2, "
-                  "after any sequence of incremental loads). The hypotheses the theorems place on the facts (NoGenerics, WellFormed, "
+                  "after any sequence of incremental loads). The hypotheses the theorems place on the facts (WellFormed, "
                   "Consistent) are decided per correspondence case by executable checks proved sound (Model/FactsCheck, "
-                  "Lemmas/FactsCheckSound) and the evidence counts the cases that meet them. PARTIAL: method sets and generic declarations "
+                  "Lemmas/FactsCheckSound) and the evidence counts the cases that meet them. PARTIAL: method sets "
                   "are outside the kernel-checked description (the methods phase is proved to leave everything else intact); that equal "
                   "node names mean equal types is go/types' String(). Complete canonical universe dumps of the real v1 and v2 loaders are compared with the model on "
                   "generated programs (incl. generics, methods, incremental loads with hand lookups), and an oracle walks go/types "
